@@ -177,6 +177,8 @@ func main() {
 		os.Exit(replay(os.Args[2]))
 	case "selftest":
 		os.Exit(selftest())
+	case "dettest":
+		os.Exit(dettest(os.Args[2:]))
 	default:
 		fatal2("unknown command %q", os.Args[1])
 	}
@@ -825,4 +827,74 @@ func historyConfirm(bin, dir, id, tier string, seed uint64, v *replayFile, batch
 	hv.Minimised = false
 	hv.Detail = fmt.Sprintf("needs process history: run %d alone passes, but fails when runs %d..%d (same property, seed %d) are executed before it in the same process - state kept by the code under test across calls\n", v.Run, hv.HistoryStart, v.Run-1, seed) + v.Detail
 	return &hv
+}
+
+// dettest is the large determinism self-test: for each property, the same 64
+// runs are executed in six fresh processes (GOMAXPROCS 1, 4 and 16, twice
+// each) and the SHA-256 of the complete event logs must be identical.
+func dettest(ids []string) int {
+	if len(ids) == 0 {
+		for id := range props {
+			ids = append(ids, id)
+		}
+		sort.Strings(ids)
+	}
+	seed := seedFromEnv()
+	bad := 0
+	for _, id := range ids {
+		p, ok := props[id]
+		if !ok {
+			fmt.Printf("%s: no check\n", id)
+			continue
+		}
+		dir := scratch()
+		bin, err := buildWorker(dir, p.Instrumented, false)
+		if err != nil {
+			os.RemoveAll(dir)
+			fatal2("build failed:\n%v", err)
+		}
+		knownPath := filepath.Join(dir, "known.json")
+		kf := loadKnown()
+		sigs := []string{}
+		for _, f := range kf.Findings {
+			if f.Property == id {
+				sigs = append(sigs, f.Signature)
+			}
+		}
+		kb, _ := json.Marshal(sigs)
+		os.WriteFile(knownPath, kb, 0o644)
+		hashes := map[string]int{}
+		n := 0
+		for rep := 0; rep < 2; rep++ {
+			for _, gmp := range []string{"1", "4", "16"} {
+				out := filepath.Join(dir, fmt.Sprintf("dt-%d-%s.json", rep, gmp))
+				cmd := exec.Command(bin, "run", "-prop", id, "-tier", "quick", "-seed", strconv.FormatUint(seed, 10),
+					"-start", "0", "-count", "64", "-known", knownPath, "-out", out, "-log", out+".log")
+				cmd.Env = append(os.Environ(), "GOMAXPROCS="+gmp)
+				if b, err := cmd.CombinedOutput(); err != nil {
+					fmt.Printf("%s: worker failed at GOMAXPROCS=%s: %v\n%s\n", id, gmp, err, b)
+					bad++
+					continue
+				}
+				var wr workerResult
+				b, _ := os.ReadFile(out)
+				json.Unmarshal(b, &wr)
+				hashes[wr.LogHash]++
+				n++
+			}
+		}
+		os.RemoveAll(dir)
+		if len(hashes) == 1 && n == 6 {
+			for h := range hashes {
+				fmt.Printf("%s: 64 runs x 6 processes (GOMAXPROCS 1/4/16, twice): identical event logs %s\n", id, h[:16])
+			}
+		} else {
+			fmt.Printf("%s: event logs DIFFER across processes: %v\n", id, hashes)
+			bad++
+		}
+	}
+	if bad > 0 {
+		return 2
+	}
+	return 0
 }
